@@ -108,9 +108,30 @@ def passGuard (b : List Stmt) : List Stmt :=
      | [] => b)
   | _ => b
 
+/-- the same guard for the other statement-removing transforms (fix F41): when the block starts with a statement that is removed
+    and the first statement that stays is a string, a `0` takes the place of the leading statement -/
+def dropGuard (q : Stmt → Bool) (b : List Stmt) : List Stmt :=
+  match b with
+  | s0 :: rest =>
+    if q s0 then
+      (match rest.filter (fun s => !q s) with
+       | s :: _ => if isStrStmt s then zeroStmt :: rest else b
+       | [] => b)
+    else b
+  | [] => b
+
+/-- does the block start with a string statement (what the compiler takes for a docstring)? -/
+def startsWithString (b : List Stmt) : Bool :=
+  match b with
+  | s :: _ => isStrStmt s
+  | [] => false
+
+/-- drop the statements satisfying `q`, behind the docstring guard -/
+def guardT (q : Stmt → Bool) : SuiteT := { suiteF := fun m b => filterSuite q m (dropGuard q b) }
+
 def removePass : SuiteT := { suiteF := fun m b => filterSuite isPass m (passGuard b) }
-def removeAsserts : SuiteT := { suiteF := filterSuite isAssert }
-def removeDebug : SuiteT := { suiteF := filterSuite canRemoveDebug }
+def removeAsserts : SuiteT := guardT isAssert
+def removeDebug : SuiteT := guardT canRemoveDebug
 def removeLiterals : SuiteT := { suiteF := filterSuite isLiteralStmt }
 
 /-! ### CombineImports -/
